@@ -12,6 +12,25 @@ def summary(qual, verified_by):
     return deco
 
 
+def verifying_contracts(used_quals, prop, registry):
+    """the contracts of OTHER properties that discharge the callee contracts (summaries) a
+    property's contracts relied on: they are re-run as part of that property's check, so that a
+    change inside a callee is noticed by every property that depends on it"""
+    out = []
+    for c in registry:
+        if c.prop == prop or c.params.get('_bounded_only') or c.tier != 'quick':
+            continue
+        if c.target not in used_quals or c.target not in SUMMARIES:
+            continue
+        owner = SUMMARY_PROPS.get(c.target, '')
+        if not owner.startswith(c.prop):
+            continue
+        if c.target == 'bezier.split_bezier' and c.params.get('deg') not in (1, 2, 3):
+            continue     # the segment classes are of degree 1..3
+        out.append(c)
+    return out
+
+
 def for_contract(ct):
     """summaries in force while verifying `ct`: every registered one except the function under
     contract itself and those the contract covers (executes in place) on purpose"""
@@ -48,7 +67,7 @@ def trusted_base(prop, summarised, axioms):
     out = list(BASE)
     out += [MODELS[k] for k in PROP_MODELS.get(prop, [])]
     for q in sorted(summarised):
-        out.append("callee contract used at call sites: %s (its own obligations are discharged under %s)" % (q, SUMMARY_PROPS.get(q, '?')))
+        out.append("callee contract used at call sites: %s (its own obligations: %s; those contracts are re-run as part of this property's check)" % (q, SUMMARY_PROPS.get(q, '?')))
     for a in sorted(axioms):
         out.append("mathematical fact used as hypothesis: %s" % a)
     return out
